@@ -92,6 +92,54 @@ theorem exec_assign_exit (fuel : Nat) (xc : X.Ctx) (n : String) (e : X.Expr) (σ
   | exit c s => exact ⟨c, s, rfl⟩
   | undef w => rw [hr] at h; simp at h
 
+theorem exec_assignSub (fuel : Nat) (xc : X.Ctx) (n : String) (i e : X.Expr) (σ st : X.St) (ht : X.tick xc σ = some st)
+    (fl : Flow) (σ' : X.St) (h : X.exec (fuel + 1) xc (.assignSub n i e) σ = .ok fl σ') :
+    ∃ iv s w s' r, X.eval fuel xc i st = .ok (.int iv) s ∧ X.eval fuel xc e s = .ok (.int w) s' ∧
+      X.arrayOf xc s' n = .ok r ∧ X.arrSet s' r iv w = .ok σ' ∧ fl = .normal := by
+  unfold X.exec at h
+  rw [ht] at h
+  simp only at h
+  split at h
+  · simp at h
+  obtain ⟨iv, s, h1, h2⟩ := bind_ok_inv _ _ _ _ h
+  obtain ⟨w, s', h3, h4⟩ := bind_ok_inv _ _ _ _ h2
+  cases ha : X.arrayOf xc s' n with
+  | error why => rw [ha] at h4; simp [bind, Except.bind] at h4
+  | ok r =>
+    rw [ha] at h4
+    simp only [bind, Except.bind] at h4
+    cases hs : X.arrSet s' r iv w with
+    | error why => rw [hs] at h4; simp at h4
+    | ok s'' =>
+      rw [hs] at h4
+      simp only [Res.ok.injEq] at h4
+      exact ⟨iv, s, w, s', r, asInt_ok _ _ _ _ h1, asInt_ok _ _ _ _ h3, ha, by rw [← h4.2]; exact hs, h4.1.symm⟩
+
+theorem exec_assignSub_exit (fuel : Nat) (xc : X.Ctx) (n : String) (i e : X.Expr) (σ st : X.St) (ht : X.tick xc σ = some st)
+    (code : Word) (σ' : X.St) (h : X.exec (fuel + 1) xc (.assignSub n i e) σ = .exit code σ') :
+    (∃ c s, asInt "subscript" (X.eval fuel xc i st) = .exit c s) ∨
+    (∃ iv s c s', asInt "subscript" (X.eval fuel xc i st) = .ok iv s ∧
+      asInt "assigned value" (X.eval fuel xc e s) = .exit c s') := by
+  unfold X.exec at h
+  rw [ht] at h
+  simp only at h
+  split at h
+  · simp at h
+  unfold Res.bind at h
+  cases hr : asInt "subscript" (X.eval fuel xc i st) with
+  | ok iv s =>
+    rw [hr] at h
+    simp only at h
+    cases hr2 : asInt "assigned value" (X.eval fuel xc e s) with
+    | ok w s' =>
+      rw [hr2] at h
+      simp only at h
+      split at h <;> simp at h
+    | exit c s' => exact Or.inr ⟨iv, s, c, s', rfl, hr2⟩
+    | undef w => rw [hr2] at h; simp at h
+  | exit c s => exact Or.inl ⟨c, s, rfl⟩
+  | undef w => rw [hr] at h; simp at h
+
 /-- A pure expression never terminates the program. -/
 theorem eval_pure_no_exit (xc : X.Ctx) : ∀ (fuel : Nat) (e : X.Expr) (σ : X.St) (code : Word) (σ' : X.St),
     pureE e = true → X.eval fuel xc e σ ≠ .exit code σ' := by
